@@ -447,7 +447,7 @@ def tables(texts):
             j = num_j(y)
             if j is not None and j[0] != "b":
                 try:
-                    fm[repr(j)] = [j, enc("%.10g" % y)]
+                    fm[repr(j)] = [j, enc("%.10g" % (y + 0.0))]
                 except Exception:
                     pass
 
